@@ -352,6 +352,8 @@ func runDmxScenario(t *testing.T, idx int, kind string, sc dmxScenario, em *Emit
 	var coqActs, coqObs []string
 	var obsList []dmxObs
 	em.Marker("begin", idx)
+	wstep, wstop := guardWedge(em, idx, kind, sc, sc.Tags)
+	defer wstop()
 	leaked := bubble(t, func(t *testing.T) {
 		rig := &dmxRig{sc: sc, ep: NewEndpoint("shared"), orig: map[int64]*Rpc{}}
 		rig.ep.ByRef = sc.ByRef
@@ -380,6 +382,7 @@ func runDmxScenario(t *testing.T, idx int, kind string, sc dmxScenario, em *Emit
 		}()
 		synctest.Wait()
 		for _, a := range sc.Acts {
+			wstep()
 			term := rig.do(a)
 			synctest.Wait()
 			o := rig.snapshot()
@@ -388,6 +391,7 @@ func runDmxScenario(t *testing.T, idx int, kind string, sc dmxScenario, em *Emit
 			coqObs = append(coqObs, o.coq())
 		}
 		// cleanup (not compared)
+		wstep()
 		rig.mu.Lock()
 		for _, c := range rig.calls {
 			c.ctx.finish(context.Canceled)
